@@ -30,6 +30,7 @@ REQUIRED = [
     "method_bind", "method_bind_posonly",
     "bound_outcome_same_not_full", "bound_same_not_full", "bound_outcome_same_partial", "bound_same_partial",
     "kw_register_spec", "kw_register_overwritten",
+    "pytd_ok_iff_interp", "pytd_bind_ok_iff", "pytd_bind_same", "pytd_error_class_differs",
 ]
 
 KINDS = ["func", "method", "classmethod", "staticmethod", "init"]
@@ -878,6 +879,129 @@ def k2(res, rng, tier, drv, n_modules):
   return stats, len(distinct), samples, dis
 
 
+# ----------------------------------------------------------------------------
+# K4: callees declared in a stub (PyTDSignature._map_args) vs the Lean model mapArgsPytd
+# ----------------------------------------------------------------------------
+def pytd_stub_and_module(items):
+  """-> (lib.pyi text, module source, [(item, call, line)]).  Every declared parameter p is annotated with its own
+  class A_p; the call passes, for each argument, an instance of the class of the parameter CPython binds it to (X for
+  *args / **kwargs / nothing), so a call pytype binds differently shows as wrong-arg-types."""
+  names = sorted({n for it in items for n in all_names(it["sig"])})
+  P = ["class X: ...", "x: X"] + ["class A_%s: ..." % n for n in names] + ["v_%s: A_%s" % (n, n) for n in names]
+  for ii, it in enumerate(items):
+    sig = it["sig"]
+    ds = set(sig["defaults"])
+
+    def par(n):
+      return "%s: A_%s%s" % (n, n, " = ..." if n in ds else "")
+    ps = [par(n) for n in sig["posonly"]]
+    if sig["posonly"]:
+      ps.append("/")
+    ps += [par(n) for n in sig["poskw"]]
+    if sig["varargs"]:
+      ps.append("*%s: object" % sig["varargs"])
+    elif sig["kwonly"]:
+      ps.append("*")
+    ps += [par(n) for n in sig["kwonly"]]
+    if sig["kwargs"]:
+      ps.append("**%s: object" % sig["kwargs"])
+    P.append("def f%d(%s) -> None: ..." % (ii, ", ".join(ps)))
+  L, where = ["import lib"], []
+  for ii, it in enumerate(items):
+    sig = it["sig"]
+    pos = sig["posonly"] + sig["poskw"]
+    bindable = set(sig["poskw"] + sig["kwonly"])
+    for ci, (npos, kws) in enumerate(it["calls"]):
+      a = ["lib.v_%s" % pos[i] if i < len(pos) else "lib.x" for i in range(npos)]
+      a += ["%s=%s" % (k, "lib.v_%s" % k if k in bindable else "lib.x") for k in kws]
+      L.append("lib.f%d(%s)" % (ii, ", ".join(a)))
+      where.append((ii, ci, len(L)))
+  return "\n".join(P) + "\n", "\n".join(L) + "\n", where
+
+
+def _k4_worker(items):
+  import shutil
+  import tempfile
+  common.load_pytype()
+  from pytype import config, io
+  stub, src, where = pytd_stub_and_module(items)
+  d = tempfile.mkdtemp(prefix="c13k4_", dir=os.path.join(common.VERIF, "build"))
+  try:
+    open(os.path.join(d, "lib.pyi"), "w").write(stub)
+    try:
+      ret, _ = io.generate_pyi(src, config.Options.create(python_version=(3, 12), pythonpath=d))
+    except Exception as e:  # pylint: disable=broad-except
+      return {"crash": repr(e)[:300], "stub": stub, "src": src}
+    by_line = {}
+    for e in ret.context.errorlog.unique_sorted_errors():
+      by_line.setdefault(e.line, []).append(e.name)
+    out = {}
+    for ii, ci, line in where:
+      errs = by_line.pop(line, [])
+      if not errs:
+        out["%d,%d" % (ii, ci)] = ("ok", "")
+      elif len(errs) == 1 and errs[0] in PY_ERR:
+        out["%d,%d" % (ii, ci)] = ("err", PY_ERR[errs[0]])
+      else:
+        out["%d,%d" % (ii, ci)] = ("other", ",".join(errs))
+    return {"out": out, "stray": sorted(by_line.items())[:5], "stub": stub, "src": src}
+  finally:
+    shutil.rmtree(d, ignore_errors=True)
+
+
+def k4_pytd(res, rng, tier, drv):
+  """functions declared in a stub: real PyTDSignature binding vs Lean mapArgsPytd (error kind per call line; for the
+  calls the model binds, no error at all — the arguments are typed after the parameters CPython binds them to), and
+  Lean model vs Lean spec cpyBind on the accept/reject decision (proved: pytd_bind_ok_iff; recomputed here)"""
+  n_mod = 24 if tier == "quick" else 160
+  mods = []
+  for m in range(n_mod):
+    items = []
+    for _ in range(6):
+      it = gen_item(rng, big=(m % 5 == 4), kind="func")
+      items.append({"kind": "func", "sig": it["sig"], "calls": it["calls"]})
+    mods.append(items)
+  with multiprocessing.get_context("fork").Pool(min(NPROC, 12)) as pool:
+    outs = pool.map(_k4_worker, mods, chunksize=1)
+  dis = []
+  st = {"modules": n_mod, "calls": 0, "model_ok": 0, "model_err": {}, "accept_reject_differs_from_spec": 0,
+        "error_class_differs_from_cpython": 0}
+  distinct = set()
+  for items, o in zip(mods, outs):
+    if "crash" in o:
+      dis.append({"stage": "K4-pytd", "what": "pytype crashed on a module calling stub functions: " + o["crash"],
+                  "program": o["src"], "stub": o["stub"]})
+      continue
+    if o["stray"]:
+      dis.append({"stage": "K4-pytd", "what": "unexpected errors %s" % (o["stray"],), "program": o["src"], "stub": o["stub"]})
+    for ii, it in enumerate(items):
+      lines, names = driver_lines(it["sig"], it["calls"], [False] * len(it["calls"]))
+      lines = [lines[0]] + ["p" + l[1:] for l in lines[1:]]
+      ans = drv.batch(lines)
+      for ci, (call, line) in enumerate(zip(it["calls"], ans)):
+        model, spec = decode_line(line, names, True)
+        real = tuple(o["out"]["%d,%d" % (ii, ci)])
+        st["calls"] += 1
+        distinct.add((repr(it["sig"]), call[0], tuple(call[1])))
+        if model[0] == "ok":
+          st["model_ok"] += 1
+        else:
+          st["model_err"][model[1]] = st["model_err"].get(model[1], 0) + 1
+        if (model[0] == "ok") != (spec[0] == "ok"):
+          st["accept_reject_differs_from_spec"] += 1
+          dis.append({"stage": "K4-pytd", "what": "Lean mapArgsPytd and Lean cpyBind disagree on accept/reject (contradicts "
+                      "pytd_bind_ok_iff)", "sig": it["sig"], "call": list(call)})
+        elif model[0] == "err" and M_CLASS.get(model[1]) != C_CLASS.get(spec[1]):
+          st["error_class_differs_from_cpython"] += 1      # allowed: pytd_error_class_differs
+        want = ("ok", "") if model[0] == "ok" else ("err", model[1])
+        if real != want:
+          dis.append({"stage": "K4-pytd", "what": "model!=pytype (stub callee)", "kind": "pytd", "sig": it["sig"],
+                      "call": list(call), "lean_model": list(want), "real_pytype": list(real),
+                      "text": "stub: def f(%s); lib.f(%s)" % (params_src(it["sig"], lambda n: "..."), args_src(call))})
+  res.cov["pytd_callees"] = st
+  return dis, st["calls"], len(distinct)
+
+
 def correspond(res, rng, tier):
   common.load_pytype()
   drv = common.ensure_driver("drv_c13")
@@ -887,8 +1011,10 @@ def correspond(res, rng, tier):
   n_modules = 100 if tier == "quick" else 900
   st2, nt2, samples, dis2 = k2(res, random.Random(rng.randrange(1 << 30)), tier, drv, n_modules)
   t2 = time.time()
-  res.cov["evaluations"] = n1 + st2["calls"]
-  res.cov["distinct_nontrivial"] = nt1 + nt2
+  dis4, n4, nt4 = k4_pytd(res, random.Random(rng.randrange(1 << 30)), tier, drv)
+  dis2 = dis2 + dis4
+  res.cov["evaluations"] = n1 + st2["calls"] + n4
+  res.cov["distinct_nontrivial"] = nt1 + nt2 + nt4
   res.cov["exhaustive"] = False
   res.cov["rule"] = (
       "K1: %d of the %d signatures with <=3 positional-only, <=3 positional-or-keyword, <=3 keyword-only parameters, "
